@@ -109,7 +109,7 @@ func run(c *mon.Ctx) {
 	c.Floor("event.restart_by_pusi", 500)
 	c.Floor("event.predicate_error", 100)
 	c.Floor("event.no_payload", 300)
-	c.Stream("histories", c.N(30000, 2000000), func(i int, r *gen.Rand) { history(c, r) })
+	c.Stream("histories", c.N(30000, 40000000), func(i int, r *gen.Rand) { history(c, r) })
 }
 
 func history(c *mon.Ctx, r *gen.Rand) {
